@@ -30,7 +30,7 @@ PROBES = ["pred_chunk_lacks_fold", "one_row_last_chunk", "spectrum_split_across_
           "switch_in_get_rows", "switch_in_save_chunks", "parquet", "workers>=8", "dedup_off", "rollup_off",
           "multi_file", "order_sensitive_learner", "sklearn_learner", "merge_chunk_small", "protein_level",
           "pep_files_compared_strictly", "pep_files_checked_for_shape_only", "feature_with_missing_values", "ensemble_mode", "proba_only_learner",
-          "spectrum_key_with_missing_values", "parquet_dictionary_typed_strings", "parquet_written_from_sliced_frame"]
+          "spectrum_key_with_missing_values", "parquet_dictionary_typed_strings", "parquet_written_from_sliced_frame", "text_feature_starts_with_whole_numbers"]
 RULE = (
     "Each scenario = one seeded tie-free data set + configuration (learner, folds, seeds, rollup/decoy/dedup "
     "switches) executed as reference (text, knobs > file, 1 worker, no threads) and as perturbed execution "
@@ -117,6 +117,10 @@ def make_scenario(seed):
         pert["dict_strings"] = True  # low-cardinality string columns stored dictionary-typed (a pandas Categorical)
     if fmt == "parquet" and rng.random() < 0.3:
         pert["index_start"] = rng.choice([1, 40, 10**6])  # the file was written by pandas from a sliced frame
+    if rng.random() < 0.3:
+        # %g-style text: whole numbers without a decimal point, and a feature that starts with whole numbers
+        cfg["g_format"] = True
+        dp["whole_head"] = {"idx": rng.randrange(8), "rows": rng.choice([2, 3, 5])}
     if "ExpMass" in dp["spec_extra"] and dp["max_per_spectrum"] > 1 and rng.random() < 0.4:
         dp["nan_key"] = rng.choice([0.1, 0.25])  # some spectra lack the measured mass (a missing value in the spectrum key)
     if rng.random() < 0.25 and cfg["conf"]["rollup"]:
@@ -335,6 +339,7 @@ def run_scenario(scn, workdir):
         "spectrum_key_with_missing_values": int(bool(scn["data"].get("nan_key"))),
         "parquet_dictionary_typed_strings": int(bool(scn["pert"].get("dict_strings"))),
         "parquet_written_from_sliced_frame": int(bool(scn["pert"].get("index_start"))),
+        "text_feature_starts_with_whole_numbers": int(bool(scn["data"].get("whole_head"))),
         "ensemble_mode": int(bool(cfg.get("ensemble"))),
     }
     rg = pert.get("row_group")
@@ -509,6 +514,8 @@ def shrink_candidates(scn):
         c = clone(scn); c["pert"]["dict_strings"] = False; yield c
     if scn["pert"].get("index_start"):
         c = clone(scn); c["pert"]["index_start"] = 0; yield c
+    if dp.get("whole_head"):
+        c = clone(scn); c["data"]["whole_head"] = None; c["cfg"]["g_format"] = False; yield c
     for x in list(dp["spec_extra"]):
         c = clone(scn); c["data"]["spec_extra"] = [y for y in dp["spec_extra"] if y != x]; yield c
     if dp["n_spectra"] > 70:
